@@ -233,7 +233,7 @@ func (m *Manager) CreateAllocation( // nolint: cyclop
 	m.log.Debugf("Listening on relay address: %s", alloc.RelayAddr)
 
 	alloc.lifetimeTimer = time.AfterFunc(lifetime, func() {
-		m.DeleteAllocation(alloc.fiveTuple)
+		m.deleteAllocation(alloc.fiveTuple, alloc)
 	})
 
 	m.lock.Lock()
@@ -259,10 +259,22 @@ func (m *Manager) CreateAllocation( // nolint: cyclop
 
 // DeleteAllocation removes an allocation.
 func (m *Manager) DeleteAllocation(fiveTuple *FiveTuple) {
+	m.deleteAllocation(fiveTuple, nil)
+}
+
+// deleteAllocation removes the allocation of fiveTuple. When only is set, the allocation is
+// removed only if it still is that very allocation: the expiry timer and the relay read loop of
+// an allocation that has already been replaced must not delete its successor on the same 5-tuple.
+func (m *Manager) deleteAllocation(fiveTuple *FiveTuple, only *Allocation) {
 	fingerprint := fiveTuple.Fingerprint()
 
 	m.lock.Lock()
 	allocation := m.allocations[fingerprint]
+	if only != nil && allocation != only {
+		m.lock.Unlock()
+
+		return
+	}
 	delete(m.allocations, fingerprint)
 	m.lock.Unlock()
 
